@@ -16,7 +16,7 @@ ASSUMPTIONS = ["rapidfuzz.process.cdist(workers=-1) is answered with one thread 
                "edge vectors drawn from {0,0.5,1,2,3[,4]}; pseudocounts {0,0.5,1}",
                "normalised results compared to 1e-12; raw counts compared exactly"]
 REQUIRED_CLASSES = {"all": ["value-on-last-edge", "value-on-inner-edge", "total-zero-normalised", "pseudocount>0", "second-collection", "tcr-table-default-metric",
-                            "maxseqs-downsampled", "bins=0", "asymmetric-metric", "legacy-tuple", "free-running-threads"]}
+                            "maxseqs-downsampled", "bins=0", "asymmetric-metric", "legacy-tuple", "free-running-threads", "default-bins-boundary"]}
 MIN_OUTCOMES = 10
 SINGLE_THREAD_RAPIDFUZZ = True
 
@@ -146,6 +146,8 @@ def spaces(tier):
 
     def gen_bg():
         yield ("background",)
+        for n in (22, 23, 24, 25, 26):
+            yield ("default-bins", n)
 
     def gen_free():
         for seqs in E.lists(U2, 2, minlen=2):
@@ -157,7 +159,7 @@ def spaces(tier):
         Space("tcr-tables", gen_tables, "tables of 2..3(4) rows over 3x3 two-letter CDR3s, column sets {CDR3A},{CDR3B},{CDR3A,CDR3B}(+extra column, shifted index), legacy tuple form; default metric", shards=32),
         Space("maxseqs-rng-seam", gen_maxseqs, "lists of 2..4 strings over U(AB,1) and tables of 2..4 rows x maxseqs in {1,2,N-1,N,N+1} x seqs2; every subset the RNG can return"),
         Space("free-running-rapidfuzz-threads", gen_free, "Lists(U(AB,2),2) x 2 second collections x 4 metrics x 4 normalisations with rapidfuzz's own thread pool (workers=-1) untouched"),
-        Space("background-table", gen_bg, "load_pcDelta_background: single deterministic case", per_case=True),
+        Space("background-table", gen_bg, "load_pcDelta_background (single deterministic case); default bins (None) on string families with distances of exactly 22..26", per_case=True),
     ]
 
 
@@ -268,6 +270,20 @@ def check_case(case, acc):
         _check_maxseqs_table(acc, case)
     elif kind == "background":
         _check_background(acc, case)
+    elif kind == "default-bins":
+        # default bins are range(0, 25): 24 bins, the last one closed ([23, 24]); distances of exactly n occur in this family
+        n = case[1]
+        acc.cls("default-bins-boundary")
+        seqs = ["A" * n, "C" * n, "", "A" * (n - 1), "A" * (n + 1), "AC"]
+        for seqs2 in (None, ["", "C" * n, "A"]):
+            for normalize in (False, True):
+                values = ref_values("default", seqs, seqs2)
+                exp = expected(values, list(range(25)), normalize, 0)
+                r = acc.call(pyrepseq.pcDelta, list(seqs), None if seqs2 is None else list(seqs2), normalize=normalize)
+                if not same(r, exp, normalize):
+                    acc.fail("pcDelta/default-bins/boundary", case, exp, r, note="distances %s" % sorted(set(values)))
+                    return
+                acc.ok(("dflt", n, normalize, tuple(ref_hist(values, list(range(25))))), nontrivial=True)
     else:
         raise HarnessError("unknown case %r" % (case,))
 
